@@ -19,7 +19,7 @@ class Params(dict):
         n_nodes=8, n_inputs=2, n_inits=2, n_outputs=2, p_if=0.15, p_call=0.1, n_functions=1, depth=2, typed=True,
         name_noise=0.0, unsorted=False, p_dup=0.2, p_const=0.15, p_multi=0.1, p_unused=0.1, p_optional=0.05, metadata=False,
         big_init=False, dup_inits=False, unused_function=False, ir_version=10, init_as_input=0.2, lazy_failing_init=False,
-        p_func_subgraph=0.35, annot_noise=0.0, name_style=0,
+        p_func_subgraph=0.35, annot_noise=0.0, name_style=0, func_name_overlap=0.0,
     )  # fmt: skip
 
     def __init__(self, **kw):
@@ -249,6 +249,19 @@ def gen_model(rng, p: Params | None = None) -> ir.Model:
         for v in b.all_values[:3]:
             v.metadata_props["vk"] = "vv"
             v.doc_string = "vdoc"
+    # functions are separate scopes: their values may legally carry the names of main-graph values
+    # (including the outputs of the very nodes that call them)
+    fo = p.get("func_name_overlap", 0.0)
+    if fo:
+        main_names = [v.name for v in list(graph.inputs) + [o for n in graph.all_nodes() for o in n.outputs] if v.name]
+        for f in functions:
+            fvals = list(f.inputs) + [o for n in f.all_nodes() for o in n.outputs]
+            used = {v.name for v in fvals}
+            for v in fvals:
+                free = [nm for nm in main_names if nm not in used]
+                if free and rng.random() < fo:
+                    v.name = rng.choice(free)
+                    used.add(v.name)
     # annotation noise: some values lose their shape (or get a symbolic one) or their type altogether
     an = p.get("annot_noise", 0.0)
     if an:
